@@ -111,6 +111,12 @@ def c17_history(bins, beh, hist, size, rng, sweep=False):
     ev = [{"ev": "reset", "beh": beh, "size": size}]
     try:
         src_path = os.path.join(fx.repo, "Monorail.src.json")
+        if isinstance(beh, int) and beh % 4 == 3:
+            # everything is invoked from another directory (a wrapper script's, say), the configuration named by its
+            # absolute path: `source.path` is then relative to THAT directory, for generate and for every reader alike
+            fx.default_cwd = os.path.join(fx.root, "caller")
+            os.makedirs(fx.default_cwd)
+            src_path = os.path.join(fx.default_cwd, "Monorail.src.json")
         gen_path = fx.cfg_path
         lock_path = os.path.join(fx.repo, "Monorail.lock")
         version = [1]
@@ -310,6 +316,13 @@ def c18_value(bins, idx, targets, rng, extra=None):
             # a command file in every target's default command directory, so that resolution can be observed
             for t in targets:
                 fx.add_cmd(t["path"], "build", [{"op": "exit", "code": 0}], ext=".sh")
+        if idx % 3 == 2:
+            # the configuration file is a symbolic link to a file kept elsewhere in the repository (the link's own length
+            # says nothing about the length of the configuration)
+            real = os.path.join(fx.repo, ".conf", "monorail.json")
+            os.makedirs(os.path.dirname(real))
+            os.replace(fx.cfg_path, real)
+            os.symlink(os.path.join(".conf", "monorail.json") if idx % 2 else real, fx.cfg_path)
         cfg = fx.config()
         sers = serialisations(cfg, rng)
         if idx % 2 == 1:
